@@ -31,3 +31,29 @@ Print Assumptions C10_window_step.
 Theorem C10_single_is_identity F s : sum_series F s [] = s.
 Proof. exact (sum_series_single F s). Qed.
 Print Assumptions C10_single_is_identity.
+
+(** ** what is rejected / reported as not existing *)
+Theorem C10_nothing_matched_is_not_exist F aid from until now : sum_files F [] aid from until now = RdNotExist.
+Proof. reflexivity. Qed.
+Print Assumptions C10_nothing_matched_is_not_exist.
+
+Theorem C10_differing_layouts_rejected F f1 f2 aid from until now h1 l1 h2 l2 :
+  read_file f1 aid from until now = RdOk h1 l1 -> read_file f2 aid from until now = RdOk h2 l2 ->
+  layout_eqb (layout_of_arcs (hd_arcs h1)) (layout_of_arcs (hd_arcs h2)) = false ->
+  sum_files F [f1; f2] aid from until now = RdErr.
+Proof.
+  intros H1 H2 Hl. unfold sum_files. cbn [map existsb]. rewrite H1, H2. cbn [orb opt_all map read_ok forallb fst snd andb].
+  rewrite Hl. reflexivity.
+Qed.
+Print Assumptions C10_differing_layouts_rejected.
+
+(** the summed list of a successful sum: the first file's series summed with the others', archive by archive *)
+Theorem C10_sum_of_two_files F f1 f2 aid from until now h1 l1 h2 l2 :
+  read_file f1 aid from until now = RdOk h1 l1 -> read_file f2 aid from until now = RdOk h2 l2 ->
+  layout_eqb (layout_of_arcs (hd_arcs h1)) (layout_of_arcs (hd_arcs h2)) = true -> all_eq_range_step l1 l2 = true ->
+  sum_files F [f1; f2] aid from until now = RdOk h1 (sum_lists F l1 [l2]).
+Proof.
+  intros H1 H2 Hl He. unfold sum_files. cbn [map existsb]. rewrite H1, H2. cbn [orb opt_all map read_ok forallb fst snd andb].
+  rewrite Hl, He. reflexivity.
+Qed.
+Print Assumptions C10_sum_of_two_files.
